@@ -32,10 +32,7 @@ async def build_gated_engine(s, schema_name, oracle_ref, rec, cfg):
         kw = dict(schema_name=schema_name, parent_concurrently=cfg["parent"], list_concurrently=cfg["list"])
         if "mixed" in cfg:
             # per-field settings: siblings of one selection set are a MIX of concurrent, sequential and "engine default"
-            import zlib
-            h = zlib.crc32(("%s.%s/%d" % (tname, fname, cfg["mixed"])).encode())
-            kw["parent_concurrently"] = [True, False, None][h % 3]
-            kw["list_concurrently"] = [True, False, None][(h // 3) % 3]
+            kw["parent_concurrently"], kw["list_concurrently"] = execgen.mixed_field_setting(tname, fname, cfg["mixed"])
         if cfg.get("args") == "sync":
             from tartiflette.resolver.default import sync_arguments_coercer
             kw["arguments_coercer"] = sync_arguments_coercer
@@ -103,11 +100,17 @@ async def build_gated_engine(s, schema_name, oracle_ref, rec, cfg):
         @Scalar("Odd", schema_name=schema_name)
         class OddScalar:
             def coerce_output(self, v):
+                if isinstance(v, int) and not isinstance(v, bool) and v == 99:
+                    return None              # a null produced DURING result coercion (99 is this scalar's "no value")
                 if isinstance(v, int) and not isinstance(v, bool) and v % 2 == 1:
                     return v
                 raise ValueError("not odd")
 
-            coerce_input = coerce_output
+            def coerce_input(self, v):
+                if isinstance(v, int) and not isinstance(v, bool) and v % 2 == 1:
+                    return v
+                raise ValueError("not odd")
+
 
             def parse_literal(self, ast):
                 from tartiflette.constants import UNDEFINED_VALUE
